@@ -161,6 +161,7 @@ def run(ctx):
     _roots, _seen, _impls = c14.closure(ctx)
     c14.c14_5_trust(ctx, _seen, R="C13.4")
     c13_vec_count(ctx, impls)
+    c13_defaults_and_g2(ctx)
 
 
 # ------------------------------------------------------------------ C13.1a
@@ -627,3 +628,52 @@ def c13_vec_count(ctx, impls):
     ctx.ob(R, "vec-count:range", ok, "Vec<T>::parse iterates 0..len with len = the parsed u32 prefix, unmodified", found=detail, where=b.fn.sp)
     pushes = [bi for bi, n, t in b.calls() if U.flat(n).endswith("Vec::push")]
     U.loop_no_skip(ctx, R, b, "vec-count:push-each", pushes, "every iteration pushes one parsed element")
+
+
+def c13_defaults_and_g2(ctx):
+    """(a) the provided methods every type inherits: hash() = Sha256 over update_digest(self) and nothing else (in particular
+    not over to_bytes(): for version-2 proofs of space the two differ by design), to_bytes() = stream(self) into a fresh Vec;
+    (b) G2 decoding has one accepting path -- blst_p2_uncompress succeeded on the whole 96-byte buffer -- so every accepted
+    encoding is one blst re-produces on compress (no locally recognised 'infinity' prefix that ignores trailing bytes);
+    to_bytes of both point types is the blst compressor."""
+    from .. import paths as P
+    from .. import apnf
+    R = "C13.3"
+    for nm, want in (("hash", ("call", "('Sha256::finalize', ('after', ('update_digest', 'self', ('Sha256::new',))))", ("new", "update_digest", "finalize"))),):
+        b = U.body(ctx, R, "chia_traits::streamable::Streamable::" + nm)
+        if not b:
+            continue
+        rows = set()
+        for ev, ex in P.enumerate_paths(b):
+            rows.add((ex[0], P.ret_class(ev) if ex[0] == "return" else "", str(apnf.N(P.ret_of(ev))) if ex[0] == "return" else "",
+                      tuple(U.flat(e[2]).split("::")[-1] for e in P.calls(ev)), len(P.conds(ev))))
+        ctx.ob(R, "default:" + nm, rows == {("return", want[0], want[1], want[2], 0)},
+               "Streamable::hash = Sha256::new(); self.update_digest(&mut ctx); ctx.finalize() -- one path, no other call",
+               found=sorted(map(str, rows))[:2], where=b.fn.sp)
+    b = U.body(ctx, R, "chia_traits::streamable::Streamable::to_bytes")
+    if b:
+        rows = set()
+        for ev, ex in P.enumerate_paths(b):
+            rows.add((ex[0], P.ret_class(ev) if ex[0] == "return" else "", str(apnf.N(P.ret_of(ev))) if ex[0] == "return" and P.ret_class(ev) == "Ok" else ""))
+        exp = {("return", "Ok", "('Ok', ('after', ('stream', 'self', ('Vec::new',))))"), ("return", "Err", "")}
+        ctx.ob(R, "default:to_bytes", rows == exp, "Streamable::to_bytes = stream(self) into a fresh Vec, errors propagated", found=sorted(map(str, rows))[:3])
+    R = "C13.2"
+    b = U.body(ctx, R, "chia_bls::signature::Signature::from_bytes_unchecked")
+    if b:
+        rows = set()
+        for ev, ex in P.enumerate_paths(b):
+            cs = tuple(sorted((str(apnf.N(t)).split("(")[1].strip("', ") + ":" + str(apnf.N(t)).split("'")[3], l[1]) for t, l in P.conds(ev)))
+            rows.add((ex[0], P.ret_class(ev) if ex[0] == "return" else "", cs))
+        exp = {("return", "Ok", (("PartialEq::ne:blst_p2_uncompress", False),)), ("return", "Err", (("PartialEq::ne:blst_p2_uncompress", True),))}
+        ok = rows == exp
+        un = [t for bi, n, t in b.calls() if U.flat(n).endswith("blst_p2_uncompress")]
+        ok = ok and len(un) == 1 and str(apnf.N(b.operand_term(un[0]["args"][1]))) == "('as_ptr', ('as &[u8]', 'buf'))"
+        ctx.ob(R, "g2:single-accepting-path", ok,
+               "Signature::from_bytes_unchecked accepts exactly when blst_p2_uncompress(buf) succeeds (whole buffer, no local shortcut)",
+               found=sorted(map(str, rows))[:3], where=b.fn.sp)
+    for ty, mod_, prim in (("Signature", "signature", "blst_p2_compress"), ("PublicKey", "public_key", "blst_p1_compress")):
+        b = U.body(ctx, R, "chia_bls::%s::%s::to_bytes" % (mod_, ty))
+        if b:
+            names = [U.flat(n).split("::")[-1] for bi, n, t in b.calls()]
+            sw = [x for x in range(b.n) if x in b.reach and b.blocks[x]["t"]["k"] == "switch"]
+            ctx.ob(R, "compress:" + ty, names.count(prim) == 1 and not sw, "%s::to_bytes is %s of the point, unconditionally" % (ty, prim), found=names)
